@@ -129,20 +129,18 @@ func crashFingerprint(stderr string) (string, string) {
 
 // workerBin: C12 runs the race-detector build of the instrumented copy, C20 the instrumented copy,
 // everything else the plain build (see ./check).
-func workerBin(race bool) string {
+func workerBin(pi *propInfo) string {
 	switch {
-	case race && os.Getenv("VERIF_RACE") != "0":
+	case pi.Race && os.Getenv("VERIF_RACE") != "0":
 		return filepath.Join(binDir, "worker-race-instr.test")
-	case instrBin:
+	case pi.Instr:
 		return filepath.Join(binDir, "worker-instr.test")
 	}
 	return filepath.Join(binDir, "worker.test")
 }
 
-var instrBin bool
-
 // runJob runs one worker process to completion, restarting after SUT crashes.
-func runJob(scratch string, id int, job worker.Job, race bool, perRunTimeout time.Duration) (*batchResult, error) {
+func runJob(scratch string, id int, job worker.Job, pi *propInfo, perRunTimeout time.Duration) (*batchResult, error) {
 	out := &batchResult{}
 	unexplained := map[int]int{}
 	for attempt := 0; attempt < 200; attempt++ {
@@ -155,7 +153,7 @@ func runJob(scratch string, id int, job worker.Job, race bool, perRunTimeout tim
 		}
 		errFile := filepath.Join(scratch, fmt.Sprintf("w%d-%d.err", id, attempt))
 		ef, _ := os.Create(errFile)
-		cmd := exec.Command(workerBin(race), "-test.run", "^TestWorker$", "-test.timeout", "0", "-test.count", "1")
+		cmd := exec.Command(workerBin(pi), "-test.run", "^TestWorker$", "-test.timeout", "0", "-test.count", "1")
 		cmd.Env = append(os.Environ(), "VERIF_JOB="+jf, "GOMAXPROCS="+envOr("VERIF_WORKER_GOMAXPROCS", "2"), "GORACE=halt_on_error=1 exitcode=66")
 		cmd.Stdout = ef
 		cmd.Stderr = ef
@@ -423,7 +421,7 @@ func execPlans(scratch string, pi *propInfo, plans []*kernel.Plan, known []strin
 				job.Plans = append(job.Plans, files[i])
 			}
 			sub, _ := os.MkdirTemp(dir, "w")
-			br, err := runJob(sub, w, job, pi.Race, pi.perRun())
+			br, err := runJob(sub, w, job, pi, pi.perRun())
 			mu.Lock()
 			defer mu.Unlock()
 			if err != nil {
@@ -630,7 +628,9 @@ func doReplay(path string) int {
 	if pi == nil {
 		harnessFail("unknown property %s", rf.Property)
 	}
-	instrBin = pi.Instr
+	if pi.Engine != rf.Engine && pi.Also != nil && pi.Also.Engine == rf.Engine {
+		pi = pi.Also // the property's second engine (it may run another worker binary)
+	}
 	scratch, _ := os.MkdirTemp("", "orda-verif.")
 	defer os.RemoveAll(scratch)
 	outs, err := execPlans(scratch, pi, []*kernel.Plan{rf.plan()}, nil, true, 1)
@@ -706,7 +706,7 @@ func runEngine(pi *propInfo, prop, tier string, seed int64, workers, budget, max
 			}
 			sub := filepath.Join(scratch, fmt.Sprintf("w%d", w))
 			_ = os.MkdirAll(sub, 0o755)
-			results[w], errs[w] = runJob(sub, w, job, pi.Race, pi.perRun())
+			results[w], errs[w] = runJob(sub, w, job, pi, pi.perRun())
 		}(w)
 	}
 	wg.Wait()
@@ -844,7 +844,6 @@ func doCheck(prop, tier string) int {
 	if pi == nil {
 		harnessFail("unknown property %s", prop)
 	}
-	instrBin = pi.Instr
 	start := time.Now()
 	seed := int64(envInt("VERIF_SEED", 1))
 	workers := envInt("VERIF_WORKERS", 16)
